@@ -144,7 +144,7 @@ func calcBudget(movetime time.Duration, gametime time.Duration, inc time.Duratio
 			budget = gametime - time.Millisecond
 		}
 	}
-	if movetime > 0 && (budget == 0 || movetime < budget) {
+	if movetime > 0 && (gametime == 0 || movetime < budget) {
 		budget = movetime
 	}
 	return budget
